@@ -26,7 +26,10 @@ Oracle (tolerances absolute, values are O(1) float64)
   onto the plane normal to the major axis is a linear map with singular values 1 and 1/c, so steps range
   over [c, 1/c] * pi/45 = 0.6155..1.624 on the real tree.)
   coverage: angle to the nearest major axis up to sign <= 4.0 deg (measured sup 3.11 deg).
-Not checked: the catalog reader's column loader (needs a catalog fixture; covered by C02/C05).
+  loader      (enumerated) the observation point itself: a small synthetic catalog loaded with every selection/order of the
+              Min/Mid/Maj columns of every (sigmar|sigman|sigmav, com|L2com): each column is the float32 image of the direct
+              decoding of the stored codes and unit to 4e-7, whichever siblings were requested (C02 checks selection
+              independence in general, C05 checks 'all' fields against the direct decoding).
 """
 import numpy as np
 from hypothesis import strategies as st
@@ -47,11 +50,11 @@ ASSUMPTIONS = [
     'scipy.spatial.cKDTree (real scipy from /verif/.deps) is trusted for the pairwise-distinctness query',
     'tolerances: 1e-12 for unit length / orthogonality / handedness / shared major axis; 1e-6 separation for distinctness; 4.0 degrees for coverage',
     'the azimuth-stepping bound [0.98*c, 1.02/c]*pi/45 (c = largest |component| of the major axis) is derived from the format geometry, not from the statement',
-    'the catalog reader column-loader clause of the design is not exercised here (needs a catalog fixture; C02/C05)',
+    'the catalog reader column loader is exercised on small synthetic catalogs (codes drawn by the fixture builder, not all 65340) for every selection of the three axes; the decoding of all codes is judged on the direct call',
 ]
 EXHAUSTIVE_NOTE = {
-    'quick': 'all 65340 valid codes (orthonormality, handedness, distinctness, azimuth groups); coverage grid 3 faces x 256^2 directions (rigorous sup bound = grid sup + 0.32 deg)',
-    'thorough': 'all 65340 valid codes (orthonormality, handedness, distinctness, azimuth groups); coverage grid 3 faces x 1024^2 directions (rigorous sup bound = grid sup + 0.08 deg)',
+    'quick': 'all 65340 valid codes (orthonormality, handedness, distinctness, azimuth groups); coverage grid 3 faces x 256^2 directions (rigorous sup bound = grid sup + 0.32 deg); 54 catalog-loader selections',
+    'thorough': 'all 65340 valid codes (orthonormality, handedness, distinctness, azimuth groups); coverage grid 3 faces x 1024^2 directions (rigorous sup bound = grid sup + 0.08 deg); 54 catalog-loader selections',
 }
 
 _extra = {'codes_decoded': 0, 'directions_checked': 0}
@@ -109,6 +112,13 @@ def exhaustive(tier, shard, nshards):
     descs = [{'mode': 'all-codes'}]
     descs += [{'mode': 'cap', 'cap': c} for c in range(NCAP)]
     descs += [{'mode': 'coverage', 'face': f, 'quadrant': q, 'n': n} for f in range(3) for q in range(4)]
+    # the halo columns themselves: every selection of the three axes for every (statistic, centre)
+    k = 0
+    for rnv in ('sigmar', 'sigman', 'sigmav'):
+        for com in ('_com', '_L2com'):
+            for sub in _SUBSETS:
+                descs.append({'mode': 'loader', 'rnv': rnv, 'com': com, 'subset': sub, 'cat': k % 7, 'convert': k % 2 == 0})
+                k += 1
     for i, d in enumerate(descs):
         if i % nshards == shard:
             yield d
@@ -172,6 +182,8 @@ def classes(d):
             c.append('duplicate-codes')
     elif m == 'dirs':
         c.append('fill=%d' % d['nfill'])
+    elif m == 'loader':
+        c.append('subset=' + '+'.join(d['subset']))
     return c
 
 
@@ -324,6 +336,64 @@ def run_case(d):
             if bad.any():
                 i = _first(bad)
                 raise Violation('euler-batch-dependent', 'code %d decodes to %s=%r in the batch %s but to %r in the batch of all codes' % (int(codes[i]), name, a[i].tolist(), codes.tolist(), full[codes[i]].tolist()))
+    elif m == 'loader':
+        _run_loader(d)
     else:
         raise Reject('unknown mode')
     return None
+
+
+_SUBSETS = [['Min'], ['Mid'], ['Maj'], ['Min', 'Maj'], ['Maj', 'Min'], ['Min', 'Mid'], ['Mid', 'Maj'], ['Min', 'Mid', 'Maj'], ['Maj', 'Mid', 'Min']]
+
+
+def _loader_cat(k):
+    halos = [{'A': [1, 0, 1, 0], 'B': [0, 1, 0, 0], 'gone': False}] * (3 + k % 4)
+    return {'layout': 'box', 'box': [500.0, 32.0, 123.456][k % 3], 'velz': [3200.0, 1234.5, 0.37][k % 3], 'ppd': 64, 'nprev': 1, 'compression': 'none', 'seed': 18000 + k,
+            'slabs': [{'index': 0, 'halos': halos, 'tailA': 0, 'tailB': 0}, {'index': 1, 'halos': halos[:2], 'tailA': 0, 'tailB': 0}]}
+
+
+def _run_loader(d):
+    """The observation point of the property: the sigma{r,n,v}_eigenvecs{Min,Mid,Maj}_{com,L2com} halo columns, for every
+    selection of the three axes. Each loaded column must be the float32 image of the direct decoding and (hence) unit / orthogonal /
+    right-handed to float32 accuracy, whichever of its siblings were requested with it."""
+    import warnings
+
+    from vt.gen import catalog as G
+
+    from vt import env
+
+    env.register_asdf()
+    from abacusnbody.data.compaso_halo_catalog import CompaSOHaloCatalog
+
+    rnv, com, sub = d['rnv'], d['com'], list(d['subset'])
+    if rnv not in ('sigmar', 'sigman', 'sigmav') or com not in ('_com', '_L2com') or not sub or any(w not in ('Min', 'Mid', 'Maj') for w in sub) or len(set(sub)) != len(sub):
+        raise Reject('loader descriptor')
+    root = G.scratch_root('c18')
+    cat = G.build(_loader_cat(int(d['cat'])), root)
+    try:
+        fields = ['%s_eigenvecs%s%s' % (rnv, w, com) for w in sub]
+        with warnings.catch_warnings():
+            warnings.simplefilter('ignore')
+            c = call_repo(lambda: CompaSOHaloCatalog(cat.groupdir, cleaned=False, fields=list(fields), convert_units=bool(d.get('convert', True))), _sig='euler-loader-raised')
+        codes = np.concatenate([S.raw['%s_eigenvecs%s_u16' % (rnv, com)] for S in cat.slabs])
+        tri = dict(zip(('Min', 'Mid', 'Maj'), _decode(codes)))
+        got = {}
+        for w, f in zip(sub, fields):
+            if f not in c.halos.colnames:
+                raise Violation('euler-loader-column-missing', 'requested %s, columns are %s' % (fields, c.halos.colnames))
+            a = np.asarray(c.halos[f])
+            if a.shape != (len(codes), 3):
+                raise Violation('euler-shape', 'column %s has shape %r for %d halos' % (f, a.shape, len(codes)))
+            got[w] = a.astype(np.float64)
+            want = tri[w].astype(np.float32).astype(np.float64)
+            bad = ~(np.abs(got[w] - want).max(axis=1) <= 0)
+            if bad.any():
+                i = _first(bad)
+                raise Violation('euler-loader-column-wrong', 'fields=%s: column %s row %d (code %d) is %r, the direct decoding gives %r' % (fields, f, i, int(codes[i]), got[w][i].tolist(), want[i].tolist()))
+            bad = ~(np.abs(np.sqrt((got[w] ** 2).sum(axis=1)) - 1.0) <= 4e-7)
+            if bad.any():
+                i = _first(bad)
+                raise Violation('euler-not-unit', 'fields=%s: column %s row %d (code %d) has length %r' % (fields, f, i, int(codes[i]), float(np.sqrt((got[w][i] ** 2).sum()))))
+        _extra['loader_columns_checked'] = _extra.get('loader_columns_checked', 0) + len(sub)
+    finally:
+        G.destroy(cat)
